@@ -268,6 +268,12 @@ func c06Property(t *rapid.T) {
 	s.logf("TEST MESSAGE in state %s: %s", state, vk.Show(raw))
 	stateBefore := s.r.V.StateName()
 	st := s.r.In(raw)
+	if stalled := time.Since(now); stalled > 10*time.Second {
+		// the SendingTime offsets were computed from 'now'; after a long stall of the machine the
+		// verdict would depend on the wall clock: discard the case instead of judging it
+		c.Class("discarded:machine-stalled")
+		return
+	}
 	if st.Panic != nil {
 		vk.Violation(t, c, "C06/engine-panic", "%v\n%s", st.Panic, s.history())
 	}
